@@ -36,6 +36,7 @@ type crudFunc struct {
 	Args  []string  `json:"args"` // Go arguments after the statement: field name for item.F, source text otherwise
 	Scan  []string  `json:"scan"`
 	Err   string    `json:"parseError,omitempty"`
+	Call  string    `json:"call,omitempty"` // QueryRow | Query | Exec
 }
 
 var (
@@ -234,7 +235,7 @@ func extractCrud(text string) (map[string][]string, []crudFunc, error) {
 					}
 					args = append(args, "?")
 				}
-				funcs = append(funcs, crudFunc{Name: name, SQL: sql, NArgs: len(call.Args) - 1, Args: args})
+				funcs = append(funcs, crudFunc{Name: name, SQL: sql, NArgs: len(call.Args) - 1, Args: args, Call: sel.Sel.Name})
 			}
 			return true
 		})
@@ -271,6 +272,7 @@ func runC05(r *rep.Report, thorough bool) error {
 				continue
 			}
 			in := map[string]any{"case": a.Case.ID, "target": tg, "sources": a.Case.Sources()}
+			var schemaText *string
 			scans, funcs, err := extractCrud(t.Text["gen_crud.go"])
 			if err != nil {
 				r.Hist("crud-text-does-not-parse(C01)")
@@ -362,6 +364,34 @@ func runC05(r *rep.Report, thorough bool) error {
 					continue
 				}
 				f.Stmt = st
+				// a SELECT run with QueryRow returns one row: "exactly the matching rows" needs the
+				// schema the SQL generator emits for the same file to allow at most one match
+				if f.Call == "QueryRow" && st.Kind == "select" && len(st.Conds) > 0 {
+					var cols []string
+					for _, c := range st.Conds {
+						if c["k"] == "eq" {
+							cols = append(cols, strings.ToLower(fmt.Sprint(c["col"])))
+						}
+					}
+					if schemaText == nil {
+						// no schema (the SQL generator refuses the file): nothing to run against
+						txt := ""
+						if ts := runTarget("sql", a, l.Mod.Root); ts.Out.Class == "ok" {
+							txt = ts.Text["gen.sql"]
+						} else {
+							r.Hist("single-row-select:no-schema(" + ts.Out.Class + ")")
+						}
+						schemaText = &txt
+					}
+					if *schemaText != "" && !(len(cols) == 1 && cols[0] == "id") {
+						r.Hist("single-row-select:by-key-checked-against-the-schema")
+					}
+					if *schemaText != "" && !(len(cols) == 1 && cols[0] == "id") && !uniqueWithin(*schemaText, st.Table, cols) {
+						r.Fail(rep.Failure{Signature: "c05:single-row-select-without-unique-constraint",
+							What: f.Name + ": reads one row (QueryRow) by " + strings.Join(cols, ", ") + ", but the schema generated for the same file has no UNIQUE / PRIMARY KEY constraint within these columns: several rows can match and only one is returned",
+							Input: map[string]any{"case": a.Case.ID, "target": tg, "func": f.Name, "sql": wsRe.ReplaceAllString(f.SQL, " "), "sources": a.Case.Sources()}, Observed: *schemaText})
+					}
+				}
 				// the scan destinations of the statement's table
 				f.Scan = scans[goTableOf[st.Table]]
 				toCheck = append(toCheck, *f)
@@ -438,6 +468,31 @@ func runC05(r *rep.Report, thorough bool) error {
 		}
 	}
 	return nil
+}
+
+var uniqueConstraintRe = regexp.MustCompile(`(?i)ALTER TABLE (\w+)\s+ADD\s+(?:CONSTRAINT\s+\w+\s+)?(?:UNIQUE|PRIMARY KEY)\s*\(([^)]*)\)`)
+
+// uniqueWithin: the schema has a UNIQUE / PRIMARY KEY constraint on table whose columns all belong to cols
+func uniqueWithin(schema, table string, cols []string) bool {
+	has := map[string]bool{}
+	for _, c := range cols {
+		has[strings.ToLower(c)] = true
+	}
+	for _, m := range uniqueConstraintRe.FindAllStringSubmatch(schema, -1) {
+		if !strings.EqualFold(m[1], table) {
+			continue
+		}
+		ok := true
+		for _, c := range splitList(m[2]) {
+			if !has[strings.ToLower(strings.Trim(c, `"`))] {
+				ok = false
+			}
+		}
+		if ok && len(splitList(m[2])) > 0 {
+			return true
+		}
+	}
+	return false
 }
 
 func numOf(v any) float64 {
